@@ -23,6 +23,12 @@ fn anchors() -> Vec<NaiveDate> {
         ymd(2100, 12, 30),
         ymd(2024, 1, 31),
         ymd(1999, 4, 30),
+        // where the library's Julian-day formula changes shape: the 1582 reform, Julian-only leap days, year 0 / 1
+        ymd(1582, 10, 1),
+        ymd(1500, 2, 20),
+        ymd(1400, 2, 25),
+        ymd(0, 12, 20),
+        ymd(1582, 9, 20),
     ]
 }
 
